@@ -67,3 +67,69 @@ func (e *Env) RBufferReuse() {
 	}
 	e.Run.Floor("R-SHARED", "per-file buffers", n, 2)
 }
+
+// RPerFileReset (R-SHARED): every unexported slice- or map-typed field of the FileRestorer — the
+// state one file's restore accumulates: line starts, comments, deferred object nodes, chosen
+// package names — is given a new (or emptied) value where RestoreFile prepares the next file.
+// A FileRestorer is documented to be reusable; a collection that is not reset carries the
+// previous file's entries into the next one.
+func (e *Env) RPerFileReset() {
+	pkg := e.Prog.Pkg(load.PkgDecorator)
+	info := pkg.TypesInfo
+	tn, _ := pkg.Types.Scope().Lookup("FileRestorer").(*types.TypeName)
+	if tn == nil {
+		return
+	}
+	st, ok := tn.Type().Underlying().(*types.Struct)
+	if !ok {
+		return
+	}
+	n := 0
+	for i := 0; i < st.NumFields(); i++ {
+		f := st.Field(i)
+		if f.Exported() || f.Embedded() {
+			continue
+		}
+		switch f.Type().Underlying().(type) {
+		case *types.Slice, *types.Map:
+		default:
+			continue
+		}
+		n++
+		reset := false
+		for _, fd := range load.AllFuncDecls(pkg) {
+			if fd.Body == nil || !e.isResetCtx(fd) {
+				continue
+			}
+			ast.Inspect(fd.Body, func(nd ast.Node) bool {
+				as, ok := nd.(*ast.AssignStmt)
+				if !ok || len(as.Lhs) != len(as.Rhs) {
+					return true
+				}
+				for k, l := range as.Lhs {
+					if !e.isRestorerField(info, ast.Unparen(l), f.Name()) {
+						continue
+					}
+					switch r := ast.Unparen(as.Rhs[k]).(type) {
+					case *ast.CompositeLit:
+						reset = true
+					case *ast.CallExpr:
+						if id, ok := r.Fun.(*ast.Ident); ok && (id.Name == "make" || id.Name == "append") {
+							reset = true // make(…), append(x[:0], …)
+						}
+					case *ast.SliceExpr:
+						reset = true // x[:0]
+					case *ast.Ident:
+						if r.Name == "nil" {
+							reset = true
+						}
+					}
+				}
+				return true
+			})
+		}
+		e.Run.Check("R-SHARED", "FileRestorer."+f.Name()+" is reset for every file", e.Prog.Pos(f.Pos()), reset,
+			"no store of a new or emptied value in RestoreFile (or its reset helper): a FileRestorer that restores a second file starts with the first file's "+f.Name()+" — its comments are printed into the second file, its line starts corrupt the line table")
+	}
+	e.Run.Floor("R-SHARED", "per-file collections of the FileRestorer", n, 4)
+}
